@@ -71,7 +71,7 @@ func scenarioC19Getter(r *Run) {
 	for c := 0; c < ncallers; c++ {
 		var l []*getReq
 		for e := 0; e < 1+g.Int("nreq", 2); e++ {
-			path := []string{"/echo", "/some/echo/", "/nope", "/", "/fail", "//echo//", "/echo", "/fail-32602", "/fail-32603", "/fail-32600", "/fail-32097", "/fail-32096", "/fail-32098", "/fail-32700", "/h"}[g.Int("path", 15)]
+			path := []string{"/echo", "/some/echo/", "/nope", "/", "/fail", "//echo//", "///some/echo///", "/fail-32602", "/fail-32603", "/fail-32600", "/fail-32097", "/fail-32096", "/fail-32098", "/fail-32700", "/h"}[g.Int("path", 15)]
 			if path == "/h" {
 				// a call to the gated handler, possibly abandoned by its HTTP caller
 				tag := fmt.Sprintf("g%d.%d", c, e)
@@ -214,6 +214,11 @@ func judgeGet(q *getReq, useQuery bool) (why, cls string) {
 		return "response body is not valid JSON", "body-not-json"
 	}
 	if perr != nil {
+		if _, kind := refQueryParams(q.URL, useQuery); kind == "value" {
+			if u, err := url.Parse(q.URL); err == nil && strings.Trim(u.Path, "/") != "" {
+				return fmt.Sprintf("the parser rejected the URL (%v) although it names a method and every value follows the documented rules", perr), "wrong-typing"
+			}
+		}
 		if q.Status != 400 || !strings.Contains(q.Body, `"code"`) {
 			return fmt.Sprintf("the URL does not parse (%v): want 400 with a JSON error object", perr), "wrong-status"
 		}
@@ -221,6 +226,23 @@ func judgeGet(q *getReq, useQuery bool) (why, cls string) {
 	}
 	if method == "" {
 		return "parser returned an empty method without error", "wrong-status"
+	}
+	// the documented method: the URL path with its leading and trailing slashes
+	// removed, computed here without the library
+	if u, err := url.Parse(q.URL); err == nil {
+		want := u.Path
+		for strings.HasPrefix(want, "/") {
+			want = want[1:]
+		}
+		for strings.HasSuffix(want, "/") {
+			want = want[:len(want)-1]
+		}
+		if want == "" {
+			return "the path holds no method name, yet the parser accepted the URL", "wrong-method"
+		}
+		if method != want {
+			return fmt.Sprintf("the parser took method %q from the URL, the documented rule (path trimmed of slashes) gives %q", method, want), "wrong-method"
+		}
 	}
 	pbits, merr := json.Marshal(params)
 	if merr != nil {
@@ -280,7 +302,7 @@ type simHTTP struct {
 	r        *Run
 	bridge   *jhttp.Bridge
 	n        int
-	faults   map[int]int // index of Do call -> 1 error, 2 status 500
+	faults   map[int]int // index of Do call -> 1 error, 2 status 500, 3 body unreadable, 4 body read fails midway
 	Opened   int
 	Closed   int
 	InFlight int
@@ -290,6 +312,22 @@ type countBody struct {
 	io.Reader
 	h      *simHTTP
 	closed bool
+	failAt int // >= 0: reading fails once this many bytes have been delivered
+	nread  int
+}
+
+func (b *countBody) Read(p []byte) (int, error) {
+	if b.failAt >= 0 {
+		if b.nread >= b.failAt {
+			return 0, errHTTPInjected
+		}
+		if len(p) > b.failAt-b.nread {
+			p = p[:b.failAt-b.nread]
+		}
+	}
+	n, err := b.Reader.Read(p)
+	b.nread += n
+	return n, err
 }
 
 func (b *countBody) Close() error {
@@ -321,8 +359,16 @@ func (h *simHTTP) Do(req *http.Request) (*http.Response, error) {
 		code = 500
 	}
 	h.Opened++
-	return &http.Response{StatusCode: code, Status: fmt.Sprintf("%d %s", code, http.StatusText(code)), Header: rec.Header(),
-		Body: &countBody{Reader: bytes.NewReader(rec.Body.Bytes()), h: h}}, nil
+	body := &countBody{Reader: bytes.NewReader(rec.Body.Bytes()), h: h, failAt: -1}
+	if h.faults[k] >= 3 {
+		// the response arrives, but reading its body fails: at once, or midway
+		h.r.Fault("http-body-read-error")
+		body.failAt = 0
+		if h.faults[k] == 4 {
+			body.failAt = rec.Body.Len() / 2
+		}
+	}
+	return &http.Response{StatusCode: code, Status: fmt.Sprintf("%d %s", code, http.StatusText(code)), Header: rec.Header(), Body: body}, nil
 }
 
 func scenarioC19Channel(r *Run) {
@@ -332,7 +378,7 @@ func scenarioC19Channel(r *Run) {
 	hc := &simHTTP{r: r, faults: map[int]int{}}
 	faulty := false
 	if g.Chance("dofault", 0.3) {
-		hc.faults[g.Int("dofaultat", 5)] = 1 + g.Int("dofaultkind", 2)
+		hc.faults[g.Int("dofaultat", 5)] = 1 + g.Int("dofaultkind", 4)
 		faulty = true
 	}
 	type hop struct {
@@ -340,6 +386,7 @@ func scenarioC19Channel(r *Run) {
 		tags  []string
 		notes []bool
 		delay int
+		pad   string // extra parameter text: requests far larger than any buffer
 		done  bool
 		err   error
 		got   []string
@@ -359,8 +406,12 @@ func scenarioC19Channel(r *Run) {
 			op.notes = append(op.notes, op.kind == oNotify || (op.kind == oBatch && g.Chance("specnote", 0.3)))
 			th.add(tag, g.Int("hsteps", 3), g.Chance("hold", 0.25))
 		}
+		if g.Chance("bigparams", 0.08) {
+			op.pad = strings.Repeat("p", 66000+g.Int("padlen", 140000))
+			r.Probe("large-http-request")
+		}
 		ops = append(ops, op)
-		sample = append(sample, fmt.Sprintf("%s %v notify=%v", op.kind, op.tags, op.notes))
+		sample = append(sample, fmt.Sprintf("%s %v notify=%v pad=%d", op.kind, op.tags, op.notes, len(op.pad)))
 	}
 	earlyClose := g.Chance("earlyclose", 0.4)
 	closeDelay := g.Int("closedelay", 120)
@@ -386,17 +437,17 @@ func scenarioC19Channel(r *Run) {
 			ctx := context.Background()
 			switch op.kind {
 			case oCall, oCallResult:
-				rsp, err := cli.Call(ctx, "h", map[string]string{"t": op.tags[0]})
+				rsp, err := cli.Call(ctx, "h", map[string]string{"t": op.tags[0], "pad": op.pad})
 				op.err = err
 				if err == nil {
 					op.got = append(op.got, rsp.ResultString())
 				}
 			case oNotify:
-				op.err = cli.Notify(ctx, "h", map[string]string{"t": op.tags[0]})
+				op.err = cli.Notify(ctx, "h", map[string]string{"t": op.tags[0], "pad": op.pad})
 			case oBatch:
 				var specs []jrpc2.Spec
 				for j, t := range op.tags {
-					specs = append(specs, jrpc2.Spec{Method: "h", Params: map[string]string{"t": t}, Notify: op.notes[j]})
+					specs = append(specs, jrpc2.Spec{Method: "h", Params: map[string]string{"t": t, "pad": op.pad}, Notify: op.notes[j]})
 				}
 				rsps, err := cli.Batch(ctx, specs)
 				op.err = err
